@@ -156,6 +156,14 @@ pub fn run(rep: &mut Report, tier: &str, seed: u64) {
         let program = gen_program(&mut r, &pool, &opts);
         crate::gen::dsl::FORCE_RULE.with(|c| c.set(None));
         let text = if mutated { mutate_lines(&mut r, &program.text) } else { program.text.clone() };
+        // globals that have BOTH a quantifier and a default keep their declared shape: optional for `some`/`none`, list for
+        // `for` and comprehensions
+        let text = if mode == 0 && ci % 12 == 0 {
+            rep.count("quantified-global-with-default");
+            format!("global ZQ? = \"d\"\nglobal ZL* = \"e\"\nglobal ZP+ = \"f\"\n{}(module) @_zq {{\n  if some ZQ {{\n  }} elif none ZQ {{\n  }}\n  for zli in ZL {{\n  }}\n  let zc = [ zli2 for zli2 in ZP ]\n  let zo = ZQ\n  if some zo {{\n  }}\n}}\n", text)
+        } else {
+            text
+        };
         let real = match real_load(&text) {
             Ok(x) => x,
             Err(()) => {
